@@ -691,6 +691,88 @@ func (L *Loader) eventAddrRule(fn *ssa.Function) (obls []*Obligation) {
 	return
 }
 
+// SingleSender: the channel held in a struct field is sent on in the listed functions only (so that a
+// contract counting the sends of those functions counts all sends on that channel).
+type SingleSender struct {
+	Field  string   `json:"field"`   // "<package path>.<Type>.<field>"
+	OnlyIn []string `json:"only_in"` // short function keys
+}
+
+func (L *Loader) singleSenderRule(rules []SingleSender) (obls []*Obligation) {
+	var fns []*ssa.Function
+	for fn := range L.allFuncs {
+		fns = append(fns, fn)
+	}
+	sort.Slice(fns, func(i, j int) bool { return L.funcKey(fns[i]) < L.funcKey(fns[j]) })
+	fieldOf := func(ch ssa.Value) string {
+		u, ok := ch.(*ssa.UnOp)
+		if !ok || u.Op != token.MUL {
+			return ""
+		}
+		fa, ok := u.X.(*ssa.FieldAddr)
+		if !ok {
+			return ""
+		}
+		pt, ok := fa.X.Type().Underlying().(*types.Pointer)
+		if !ok {
+			return ""
+		}
+		st, ok := pt.Elem().Underlying().(*types.Struct)
+		if !ok {
+			return ""
+		}
+		return strings.TrimPrefix(pt.Elem().String(), modulePath+"/") + "." + st.Field(fa.Field).Name()
+	}
+	for _, r := range rules {
+		allowed := map[string]bool{}
+		for _, a := range r.OnlyIn {
+			allowed[a] = true
+		}
+		n, bad := 0, 0
+		for _, fn := range fns {
+			if p := pkgOf(fn); p == nil || !strings.HasPrefix(p.Pkg.Path(), modulePath) || strings.HasSuffix(L.fset.Position(fn.Pos()).Filename, "_test.go") {
+				continue
+			}
+			for _, b := range fn.Blocks {
+				for _, in := range b.Instrs {
+					var chans []ssa.Value
+					switch x := in.(type) {
+					case *ssa.Send:
+						chans = append(chans, x.Chan)
+					case *ssa.Select:
+						for _, st := range x.States {
+							if st.Dir == types.SendOnly {
+								chans = append(chans, st.Chan)
+							}
+						}
+					}
+					for _, ch := range chans {
+						if fieldOf(ch) != r.Field {
+							continue
+						}
+						n++
+						if !allowed[L.funcKeyShort(fn)] {
+							bad++
+							pos := L.fset.Position(in.Pos())
+							obls = append(obls, &Obligation{ID: fmt.Sprintf("%s/single-sender/%s#%d", L.funcKeyShort(fn), r.Field, bad), Kind: "confine", Func: L.funcKeyShort(fn),
+								Pos:  fmt.Sprintf("%s:%d", strings.TrimPrefix(pos.Filename, L.repoDir+"/"), pos.Line),
+								Desc: "send on " + r.Field + " outside " + strings.Join(r.OnlyIn, ", ") + ": the contracts that count the sends on this channel do not see it", Prefix: 1, Goal: "false", Script: []string{"(set-logic ALL)"}})
+						}
+					}
+				}
+			}
+		}
+		if bad == 0 {
+			goal, desc := "true", fmt.Sprintf("all %d sends on %s are in %s", n, r.Field, strings.Join(r.OnlyIn, ", "))
+			if n == 0 {
+				goal, desc = "false", "no send on "+r.Field+" found: the rule names a field that does not exist or is never sent on"
+			}
+			obls = append(obls, &Obligation{ID: "single-sender/" + r.Field + "#1", Kind: "confine", Func: r.OnlyIn[0], Pos: "props", Desc: desc, Prefix: 1, Goal: goal, Script: []string{"(set-logic ALL)"}})
+		}
+	}
+	return
+}
+
 func (L *Loader) posOfFn(fn *ssa.Function) string {
 	pos := L.fset.Position(fn.Pos())
 	return fmt.Sprintf("%s:%d", strings.TrimPrefix(pos.Filename, L.repoDir+"/"), pos.Line)
